@@ -115,17 +115,24 @@ func measureHelix(name string, t *sdf.ThreadParameters, tol float64, tolU, start
 		if i%8 == 0 {
 			phi *= 0.01 // small motions as well
 		}
-		f := s.Evaluate(v3.Vec{X: rho * math.Cos(th), Y: rho * math.Sin(th), Z: z})
+		bx, by := rho*math.Cos(th), rho*math.Sin(th)
+		if i%16 == 3 {
+			// a base point exactly on a coordinate half-plane (y = 0 or x = 0, not 1e-16)
+			q := (i / 16) % 4
+			th = float64(q) * math.Pi / 2
+			bx, by = [4]float64{rho, 0, -rho, 0}[q], [4]float64{0, rho, 0, -rho}[q]
+		}
+		f := s.Evaluate(v3.Vec{X: bx, Y: by, Z: z})
 		adv := float64(starts) * p * phi / (2 * math.Pi)
 		g := s.Evaluate(v3.Vec{X: rho * math.Cos(th+phi), Y: rho * math.Sin(th+phi), Z: z + adv})
 		a := s.Evaluate(v3.Vec{X: rho * math.Cos(th+phi), Y: rho * math.Sin(th+phi), Z: z - adv})
-		q := s.Evaluate(v3.Vec{X: rho * math.Cos(th), Y: rho * math.Sin(th), Z: z + p})
+		q := s.Evaluate(v3.Vec{X: bx, Y: by, Z: z + p})
 		inv = math.Max(inv, math.Abs(f-g))
 		per = math.Max(per, math.Abs(f-q))
 		if long > 0 {
 			// a whole number of pitches back to the middle of the rod
 			zc := z - math.Round(z/p)*p
-			per = math.Max(per, math.Abs(f-s.Evaluate(v3.Vec{X: rho * math.Cos(th), Y: rho * math.Sin(th), Z: zc})))
+			per = math.Max(per, math.Abs(f-s.Evaluate(v3.Vec{X: bx, Y: by, Z: zc})))
 		}
 		anti = math.Max(anti, math.Abs(f-a))
 		if f < 0 {
